@@ -57,10 +57,14 @@ func vkC09DoReplay(c *vkit.Ctx) {
 // vkC09BFS explores event histories breadth-first with state-digest deduplication. With report it
 // is the checking explorer (sharded on the first two events, violations reported after a fresh
 // re-run); without it it only enumerates the reachable states (identically in every shard).
+// vkC09BFSPrefix, when set, is the history every searched history starts with (search from a
+// non-initial state); depths count the events after it.
+var vkC09BFSPrefix []vkC09Ev
+
 func vkC09BFS(c *vkit.Ctx, evs []vkC09Ev, maxDepth int, report bool) (all []vkC09Node, ok bool) {
 	seen := map[string]bool{}
-	frontier := []vkC09Node{{}}
-	all = append(all, vkC09Node{})
+	frontier := []vkC09Node{{hist: append([]vkC09Ev{}, vkC09BFSPrefix...)}}
+	all = append(all, frontier[0])
 	start := time.Now()
 	for depth := 1; depth <= maxDepth && len(frontier) > 0; depth++ {
 		var next []vkC09Node
@@ -165,6 +169,29 @@ func TestVerifC09Hist(t *testing.T) {
 		maxDepth = 7
 	}
 	vkC09BFS(c, vkC09Events(c.Thorough()), maxDepth, true)
+	// second search, from a MATURE state (K1 and K2 both valid anchors: cosign, 31 days, cosign): what a
+	// failed or skipped write of one refresh costs only shows several refreshes and a restart later, which
+	// the search from the initial state does not reach within its depth
+	vkC09BFSPrefix = []vkC09Ev{{Kind: "ref", Pub: "cosign"}, {Kind: "adv", D: 31}, {Kind: "ref", Pub: "cosign"}}
+	var mature []vkC09Ev
+	for _, p := range []string{"honest", "k2only", "k1gone", "revoke", "revself", "cosign"} {
+		mature = append(mature, vkC09Ev{Kind: "ref", Pub: p})
+	}
+	mature = append(mature, vkC09Ev{Kind: "restart"}, vkC09Ev{Kind: "adv", D: 91})
+	for _, p := range []string{"revoke", "revself"} {
+		mature = append(mature, vkC09Ev{Kind: "ref", Pub: p, Fault: "dual"})
+		for _, f := range []string{"w1", "w2"} {
+			for _, op := range []string{"create", "rename"} {
+				mature = append(mature, vkC09Ev{Kind: "ref", Pub: p, Fault: "fail", File: f, Op: op})
+			}
+		}
+	}
+	matureDepth := 4
+	if c.Thorough() {
+		matureDepth = 5
+	}
+	vkC09BFS(c, mature, matureDepth, true)
+	vkC09BFSPrefix = nil
 	vkC09Finish(c)
 }
 
